@@ -72,7 +72,21 @@ HistoryClauses(r) ==
     <<"CdfMatches", \A k \in 1..Len(r.ints) : r.ints[k].what = "cdf" => HistIntOk(r.ints[k])>>
   >>
 
+(* a variable addressed from the end (dim = -k) or by a numpy integer: val = the call with that    *)
+(* dim, same = the same call with dim = n_dim-k (identical computation: 1e-9 relative + 1 unit),    *)
+(* ref = the reference marginal of variable n_dim-k; an out-of-range dim must raise                 *)
+AliasClauses(r) ==
+  IF r.exc # "" THEN << <<"UnexpectedException", FALSE>> >>
+  ELSE IF r.what \in {"marginal_pdf-out-of-range", "marginal_cdf-out-of-range", "marginal_icdf-out-of-range"}
+  THEN << <<"OutOfRangeDimRejected", r.raised>> >>
+  ELSE <<
+    <<"DimAliasesAgree", WithinRel(r.val, r.same, 1, 1000000000)>>,
+    <<"MarginalsMatch", r.what # "marginal_icdf" =>
+         WithinRel(r.val, r.ref, IF r.what = "marginal_pdf" THEN 100 ELSE 1000, 1000000)>>
+  >>
+
 Clauses(r) == CASE r.kind = "pdf" -> PdfClauses(r)
+                [] r.kind = "alias" -> AliasClauses(r)
                 [] r.kind = "history" -> HistoryClauses(r)
                 [] r.kind = "integral" -> IntegralClauses(r)
                 [] r.kind = "icdf" -> IcdfClauses(r)
